@@ -26,3 +26,9 @@ chk("C02", "exploration",
     "for uninitialised bytes reaching pwrite. Evidence reports the completion-order inversions actually observed.",
     "Observed schedules only (no enumeration of the tools' interleavings; the pool itself is enumerated in C09). TSan cannot see inside the compressor libraries.",
     "differential bytes + offline trace checker over hook log + ThreadSanitizer", "3/C02")
+chk("C11", "exploration",
+    "The real gensquashfs (instrumented build) packs each generated directory tree under identity, reverse, sorted, reverse-sorted and seeded-shuffle readdir orders "
+    "injected by a link-time readdir wrapper, for pack-dir and glob inputs and the -k/-x/-H/-o variants; all images of one variant must be byte identical, "
+    "and the wrapper log must show that different orders were actually delivered.",
+    "Orders are injected at the readdir call of project code; trees are generated (incl. multiply-linked files in and across directories).",
+    "differential bytes under injected readdir permutations", "3/C11")
